@@ -23,5 +23,12 @@ pub fn main(_args: &[String]) -> i32 {
     println!("CLD_TRAPPED={}", libc::CLD_TRAPPED as i64);
     println!("CLD_STOPPED={}", libc::CLD_STOPPED as i64);
     println!("CLD_CONTINUED={}", libc::CLD_CONTINUED as i64);
+    println!("O_CLOEXEC={}", libc::O_CLOEXEC as i64);
+    println!("F_GETFL={}", libc::F_GETFL as i64);
+    println!("F_SETFL={}", libc::F_SETFL as i64);
+    println!("EAGAIN={}", libc::EAGAIN as i64);
+    println!("EBADF={}", libc::EBADF as i64);
+    println!("ENOTSOCK={}", libc::ENOTSOCK as i64);
+    println!("MSG_NOSIGNAL={}", libc::MSG_NOSIGNAL as i64);
     0
 }
